@@ -19,7 +19,9 @@ class C19(Prop):
     rule = ("scripts with hash literals (keys of different types, keys whose printed forms coincide, duplicate keys), several functions, "
             "many constants, hashes from the host object; each prepared 3 times on FRESH evaluators and twice on the SAME evaluator within "
             "one process, and the whole case file re-run in 4 (thorough: 12) separate processes (different map-iteration seeds): compiled "
-            "program, result, printed forms, host-call trace and variables must be identical everywhere, and equal to the model's")
+            "program, result, printed forms, host-call trace and variables must be identical everywhere, and equal to the model's; "
+            "and the same script and object on a fresh evaluator and on one whose previous run (on another object) panicked, failed or "
+            "returned: same result, trace and variables")
 
     def cases(self, rng, tier):
         out = []
@@ -36,11 +38,36 @@ class C19(Prop):
             for rep in range(3):
                 f = gen.struct_case(rng, src, ["prepare:" + mode, "exec:0", "prepare:" + mode, "exec:0"], objs=objs)
                 out.append(Case("run", f, "hashy" if gid <= len(HASHY) else "random", group="D%d" % gid, note=src))
+        # the same script and object on a fresh evaluator and on one whose previous run - on ANOTHER object - was aborted
+        # by panic(), by a run-time error or ended normally: the result may not depend on that history
+        for src in scripts[:len(HASHY)] + rng.sample(scripts[len(HASHY):], min(60, len(scripts) - len(HASHY))):
+            gid += 1
+            o1 = gen.rand_object(rng) + [("Boom", 0)]
+            o2 = gen.rand_object(rng) + [("Boom", rng.choice([1, 2, 3]))]
+            wrapped = "if (Boom == 1) { panic(\"stop\"); } if (Boom == 2) { return 1 % 0; } if (Boom == 3) { return Name; } " + src
+            objs = [gen.enc_struct(o1), gen.enc_struct(o2)]
+            mode = rng.choice(["opt", "noopt"])
+            fa = gen.struct_case(rng, wrapped, ["prepare:" + mode, "exec:0"], objs=objs)
+            fb = gen.struct_case(rng, wrapped, ["prepare:" + mode, "exec:1", "exec:0"], objs=objs)
+            out.append(Case("run", fa, "history-fresh", group="H%d" % gid, note=wrapped))
+            out.append(Case("run", fb, "history-used", group="H%d" % gid, note=wrapped))
         return out
 
     def judge_groups(self, groups, go):
         out = []
         for name, cs in groups.items():
+            if name.startswith("H"):
+                a, b = go.get(cs[0].cid), go.get(cs[1].cid)
+                if not a or not b:
+                    continue
+                ka = max(int(x[1:].split(".")[0]) for x in a if x[0] == "o" and "." in x)
+                kb = max(int(x[1:].split(".")[0]) for x in b if x[0] == "o" and "." in x)
+                for f in ("class", "value", "trace", "vars"):
+                    if a.get("o%d.%s" % (ka, f)) != b.get("o%d.%s" % (kb, f)):
+                        out.append((cs[1], "the same script on the same object gives a different %s after a run on another object: fresh %s, used %s" %
+                                    (f, a.get("o%d.%s" % (ka, f)), b.get("o%d.%s" % (kb, f)))))
+                        break
+                continue
             rs = [go.get(c.cid) for c in cs]
             if any(r is None for r in rs):
                 continue
